@@ -118,7 +118,10 @@ def lexical_rule(chk, repo):
     # the whole module is scanned: patterns may be precompiled at module level or live in helper functions
     # module-level string constants, for patterns assembled with f-strings (`rf"({_IDENT})\s+({_IDENT})..."`)
     consts = {}
-    for st in repo.tree[FILE].body:
+    # ... or in a private module of the package that the fast parser imports its text-level helpers from
+    scan_files = [FILE] + sorted({imp_[1] for imp_ in repo.imported_names(FILE).values() if imp_[1] in repo.extra_files})
+    scan_nodes = [x for f_ in scan_files for x in ast.walk(repo.tree[f_])]
+    for st in [st_ for f_ in scan_files for st_ in repo.tree[f_].body]:
         if isinstance(st, (ast.Assign, ast.AnnAssign)) and getattr(st, "value", None) is not None:
             tg = st.targets[0] if isinstance(st, ast.Assign) else st.target
             if isinstance(tg, ast.Name):
@@ -126,8 +129,8 @@ def lexical_rule(chk, repo):
                 if v is not None:
                     consts[tg.id] = v
     unresolved = 0
-    in_fstring = {id(x) for j in ast.walk(repo.tree[FILE]) if isinstance(j, ast.JoinedStr) for x in ast.walk(j) if x is not j}
-    for node in ast.walk(repo.tree[FILE]):
+    in_fstring = {id(x) for j in scan_nodes if isinstance(j, ast.JoinedStr) for x in ast.walk(j) if x is not j}
+    for node in scan_nodes:
         if id(node) in in_fstring:
             continue
         pat = None
@@ -417,6 +420,15 @@ endmodule
   xor g3 (v, a, b, a);
 endmodule
 """, [], "r"
+    # a wire that is read but never driven (only the declared outputs have to be driven): an undriven buf in both parsers
+    yield "net-read-but-never-driven", """module f (a, y, z);
+  input a;
+  output y, z;
+  wire w, v;
+  and g (y, a, w);
+  assign z = v;
+endmodule
+""", [], "f"
     yield "net-named-tie1-input", """module t (tie1, a, y);
   input tie1, a;
   output y;
@@ -541,6 +553,28 @@ def run(chk):
             break
     chk.ob("C14.A.no-state-between-parses", "same module name, different definitions, alternating", prob is None, file="parsing/verilog.py", func="parse_verilog_netlist", fact=prob or {"parses": 3},
            expect="each parse uses the blackbox definitions it was given")
+    # the same text read twice, the first result edited in place in between (a cache of parsed netlists must hand out circuits of
+    # their own, the first time as well)
+    for name_, text_, bbs_, _m in [t for t in texts if t[0] in ("yosys-underscore-names", "pin-connections-without-blanks")]:
+        PH = Package(repo)
+        r1 = PH.call(FILE, "fast_parse_verilog_netlist", text_, bbs_)
+        prob = None
+        if r1[0] == "return":
+            first = r1[1]
+            gone = sorted(first.outputs())[0]
+            first.set_output(gone, False)
+            first.add("added_by_the_caller", "not", fanin=sorted(first.inputs())[0], output=True)
+            r2 = PH.call(FILE, "fast_parse_verilog_netlist", text_, bbs_)
+            r3 = PH.call(FILE, "fast_parse_verilog_netlist", text_, bbs_)
+            fresh = Package(repo).call(FILE, "fast_parse_verilog_netlist", text_, bbs_)
+            for which_, r_ in (("second", r2), ("third", r3)):
+                if prob is None and (r_[0] != "return" or fresh[0] != "return" or r_[1]._snapshot() != fresh[1]._snapshot()):
+                    prob = {"problem": f"the {which_} read of the same text differs from a first read", "edit_to_the_first_result": f"output mark of {gone} cleared, node added_by_the_caller added",
+                            "outputs": sorted(r_[1].outputs()) if r_[0] == "return" else str(r_)[:80], "expected_outputs": sorted(fresh[1].outputs()) if fresh[0] == "return" else None}
+                if prob is None and r_[1] is first:
+                    prob = {"problem": "the same Circuit object is returned twice"}
+        chk.ob("C14.A.no-state-between-parses", f"same text twice, first result edited in between::{name_}", prob is None, file=FILE, func="fast_parse_verilog_netlist", line=fi.node.lineno, fact=prob or {"parses": 3},
+               expect="every read returns a circuit of its own, equal to a first read")
     # through the public entry point
     name, text, bbs, mname = texts[0]
     r = P.call("io.py", "verilog_to_circuit", text, mname, False, bbs, False, False, True)
